@@ -29,13 +29,19 @@ func (l *lockedBuf) Bytes() []byte {
 }
 func (l *lockedBuf) Len() int { l.mu.Lock(); defer l.mu.Unlock(); return l.b.Len() }
 
+// sizesOf parses a write sequence; a token "@<ms>" is a pause before the next write and is
+// returned as a negative number.
 func sizesOf(s string) []int {
 	var out []int
 	if s == "" {
 		return out
 	}
 	for _, f := range strings.Split(s, ",") {
-		out = append(out, atoi(f))
+		if strings.HasPrefix(f, "@") {
+			out = append(out, -atoi(f[1:]))
+		} else {
+			out = append(out, atoi(f))
+		}
 	}
 	return out
 }
@@ -44,6 +50,10 @@ func sizesOf(s string) []int {
 func streamData(tag byte, sizes []int) (writes [][]byte, all []byte) {
 	off := 0
 	for _, n := range sizes {
+		if n < 0 {
+			writes = append(writes, nil) // pause marker; its length is in the sizes list
+			continue
+		}
 		b := make([]byte, n)
 		for i := range b {
 			k := off + i
@@ -64,8 +74,9 @@ func init() {
 		Settle:  2 * time.Second,
 		Body: func(x *vs.Exec, p explore.Params) {
 			x.Hold()
-			outW, outAll := streamData(0x5a, sizesOf(p["out"]))
-			errW, errAll := streamData(0xa5, sizesOf(p["err"]))
+			outS, errS := sizesOf(p["out"]), sizesOf(p["err"])
+			outW, outAll := streamData(0x5a, outS)
+			errW, errAll := streamData(0xa5, errS)
 			x.Data["outAll"], x.Data["errAll"] = outAll, errAll
 			// the pipes that replace os.Stdout / os.Stderr inside a serving plugin (os.Pipe: 64 KiB)
 			pd := x.Domain("plugin")
@@ -79,13 +90,21 @@ func init() {
 			x.Data["d"] = d
 			startWriters := func() {
 				x.Go("plugin", func() {
-					for _, w := range outW {
+					for i, w := range outW {
+						if outS[i] < 0 {
+							x.Pause(time.Duration(-outS[i]) * time.Millisecond)
+							continue
+						}
 						outPW.Write(w)
 						vs.Point("wrote-stdout")
 					}
 				})
 				x.Go("plugin", func() {
-					for _, w := range errW {
+					for i, w := range errW {
+						if errS[i] < 0 {
+							x.Pause(time.Duration(-errS[i]) * time.Millisecond)
+							continue
+						}
 						errPW.Write(w)
 						vs.Point("wrote-stderr")
 					}
@@ -119,7 +138,7 @@ func init() {
 				}
 			})
 			// wait (virtual time) until everything expected has arrived, or 10 s
-			for i := 0; i < 100 && (so.Len() < len(outAll) || se.Len() < len(errAll)); i++ {
+			for i := 0; i < 400 && (so.Len() < len(outAll) || se.Len() < len(errAll)); i++ {
 				x.Pause(100 * time.Millisecond)
 			}
 			<-rpcDone
@@ -164,6 +183,10 @@ func init() {
 				x.Fail("L", "blocked forever: %s [%s]", e, desc)
 			}
 		},
+		Conform: func() []explore.Params {
+			return []explore.Params{{"proto": "netrpc", "out": "1025,1", "err": "4097", "attach": "after"}, {"proto": "grpc", "out": "10000", "err": "1,1024", "attach": "before"},
+				{"proto": "grpcmux", "out": "4096,4096", "err": "", "attach": "after"}}
+		},
 		Instances: func(tier string) []explore.Params {
 			sizes := []string{"0", "1", "1023", "1024", "1025", "4095", "4096", "4097", "10000"}
 			var seqs []string
@@ -184,12 +207,13 @@ func init() {
 						seqs = append(seqs, a+","+b)
 					}
 				}
-				seqs = append(seqs, "1024,1024,1024", "1,4096,1", "4097,0,1023", "70000", "70000,70000")
+				seqs = append(seqs, "1024,1024,1024", "1,4096,1", "4097,0,1023", "70000", "70000,70000", "1,@3000,1025", "@6000,4097", "1024,@2500,1,@2500,1", "@31000,1")
 			default:
 				for _, a := range sizes {
 					seqs = append(seqs, a)
 				}
-				seqs = append(seqs, "1,1", "1024,1", "1023,1025", "4096,4096", "4097,1023", "10000,10000", "0,1", "1025,0,4095", "70000")
+				seqs = append(seqs, "1,1", "1024,1", "1023,1025", "4096,4096", "4097,1023", "10000,10000", "0,1", "1025,0,4095", "70000",
+					"1,@3000,1025", "@6000,4097", "1024,@2500,1,@2500,1") // output long after the host attached
 			}
 			var out []explore.Params
 			for _, proto := range []string{"netrpc", "grpc", "grpcmux"} {
